@@ -272,6 +272,20 @@ func C08(p *Prog, r *Run) {
 					fmt.Sprintf("the running best is updated to (%s, %s) on a path with distance<threshold=%v, distance<best-so-far=%v; both tests (strict, distance on the smaller side) must hold and both values must be set together", tm.Of(ns), tm.Of(nv), underThr, underBest), ip.Describe(p)...)
 			default:
 				okK := !(underThr && underBest)
+				// a species may be passed over only after its distance was measured (and failed a test), or because it has no representative
+				noRep := false
+				for _, g := range ip.Conds {
+					gt := tm.Of(g.Cond)
+					if gt.Op == "bin" && gt.Args[1].Op == "nil" && isCallTo(gt.Args[0], first) {
+						if (gt.Name == "!=" && !g.True) || (gt.Name == "==" && g.True) {
+							noRep = true
+						}
+					}
+				}
+				if !evaluated && !noRep {
+					r.Bad(lbl, pos, "a species can be passed over without its distance to the organism being measured: a closer compatible species than the one chosen may exist", ip.Describe(p)...)
+					continue
+				}
 				r.Check(okK, lbl, pos, "no update on this path (a test failed or the species is empty)", "a species closer than both the threshold and the best so far is not recorded as the best", ip.Describe(p)...)
 			}
 		}
